@@ -2,7 +2,7 @@
 import importlib
 import sys
 
-MODULES = ["vlib.oracles.selfcheck_nfa"]
+MODULES = ["vlib.oracles.selfcheck_core"]
 
 
 def main():
